@@ -13,7 +13,7 @@ from hypothesis import strategies as st
 from hypothesis.stateful import RuleBasedStateMachine, rule, initialize, precondition
 
 from . import gen, simlab, world
-from .common import Violation, crash_violation, canon
+from .common import Violation, HarnessError, crash_violation, canon
 from .oracles import exposure as X
 
 LIVE = ("PENDING", "CANCELLING", "UPDATING", "REPLACING", "EXECUTABLE")
@@ -423,6 +423,8 @@ class SimWorld:
                 continue  # unacknowledged orders are excluded by design
             t = o.order_type.ORDER_TYPE.name
             if t != "LIMIT":
+                if o.complete and not o.simulated.size_matched:
+                    continue  # a starting-price order that ended without a bet (voided with its runner, never reconciled)
                 out.append((o, {"side": o.side, "kind": "SP", "liability": o.order_type.liability}))
                 continue
             line = self.spec.get("ladder", {}).get("type") == "LINE_RANGE"  # the market's ladder, not the order's attribute
@@ -923,6 +925,10 @@ def replay_trace(world_cls, checks, trace):
         for e in trace[1:]:
             w.apply(e)
         return w.summary()
+    except (Violation, HarnessError):
+        raise
+    except Exception as exc:
+        raise crash_violation(exc, trace, "crash") from exc
     finally:
         if w is not None:
             w.close()
@@ -949,10 +955,21 @@ def make_machine(world_cls, checks, cfg_strategy, rule_weights=None):
         def _do(self, e):
             self.trace.append(e)
             try:
-                if e["_"] == "init":
-                    self.w = world_cls(checks, e["cfg"])
-                else:
-                    self.w.apply(e)
+                try:
+                    if e["_"] == "init":
+                        self.w = world_cls(checks, e["cfg"])
+                    else:
+                        self.w.apply(e)
+                except (Violation, HarnessError):
+                    raise
+                except Exception as exc:
+                    import hypothesis.errors
+
+                    if isinstance(exc, hypothesis.errors.HypothesisException):
+                        raise
+                    # an unexpected exception out of repository code (a request or an update aborted half-way)
+                    v_ = crash_violation(exc, list(self.trace), "crash")
+                    raise v_ from exc
             except Violation as v:
                 if self.col.handle(v, list(self.trace)):
                     if self.w is not None:
@@ -1138,6 +1155,28 @@ def make_machine(world_cls, checks, cfg_strategy, rule_weights=None):
             self._do({"_": "req", "op": "place", "si": si, "r": r2, "side": side, "type": "LIMIT", "tick": tick, "size": size,
                       "pers": "LAPSE", "trade": "new"})
             self._do({"_": "book", "dt": d(st.sampled_from([50, 1000])), "rc": []})
+
+        @precondition(lambda self: rw.get("squeeze", 0) > 0)
+        @rule(data=st.data())
+        def sp_stack(self, data):
+            """directed (C01): several starting-price orders of one side on one selection, each acknowledged before
+            the next; each fits the limit, the last one does not fit on top of the others"""
+            if not self.w.spec.get("bsp_market"):
+                return
+            d = data.draw
+            si = d(st.integers(0, self.ns - 1))
+            scfg = self.w.cfg["strategies"][si]
+            lim = scfg.get("max_selection_exposure") or scfg.get("max_market_exposure") or scfg.get("max_order_exposure") or 10
+            r = d(st.integers(0, self.nr - 1))
+            side = d(st.sampled_from(["LAY", "LAY", "BACK"]))
+            n = d(st.integers(2, 3))
+            frac = d(st.sampled_from([0.4, 0.45])) if n == 3 else d(st.sampled_from([0.55, 0.7]))
+            for _ in range(n):
+                typ = d(st.sampled_from(["MOC", "MOC", "LOC"]))
+                op = {"_": "req", "op": "place", "si": si, "r": r, "side": side, "type": typ, "liability": max(0.01, round(lim * frac, 2)),
+                      "tick": (max(0, self.mids[r] - 30) if side == "BACK" else min(self.nt - 1, self.mids[r] + 30)), "trade": "new"}
+                self._do(op)
+                self._do({"_": "book", "dt": 1000, "rc": []})
 
         @precondition(lambda self: rw["place_existing"] > 0)
         @rule(si=st.integers(0, 2), o=st.integers(0, 7), force=st.booleans())
